@@ -17,7 +17,54 @@ from c04 import replay_mirror
 from common import known_findings, rng_for
 
 
+def gen_two_epochs(rng):
+    """epoch 1: base, views, L1 over ALL of them, backward (every graph is cleared, the views' .base lingers);
+    epoch 2: a view of a former view, taken before that tensor enters any other operation, then consumers and backward"""
+    b = inplace.FBuilder(rng)
+    base = b.leaf(rng.choice([(4,), (2, 3), (3, 2), (6,)]), const=False)
+    views = []
+    for _ in range(rng.randint(1, 2)):
+        v = inplace.make_view(b, rng, rng.choice([base] + views))
+        if v is not None and v.size > 1:
+            views.append(v)
+    if not views:
+        return None
+    parts = []
+    for t in [base] + views:
+        p = b.apply("multiply", [t, ("array", t.shape, b.rng_vals(t.shape, -2, 2))])
+        s = b.apply("sum", [p], {"axis": None, "keepdims": False}) if p is not None else None
+        if s is None:
+            return None
+        parts.append(s)
+    L = parts[0]
+    for s in parts[1:]:
+        L = b.apply("add", [L, s])
+    b.backward(L)
+    b.stmts[-1]["new_epoch"] = True
+    b.new_epoch()
+    v = rng.choice(views)
+    v2 = inplace.make_view(b, rng, v)
+    if v2 is None or v2.size == 0:
+        return None
+    parts = []
+    for t in [v2, v] + ([base] if rng.random() < 0.5 else []):
+        p = b.apply("multiply", [t, ("array", t.shape, b.rng_vals(t.shape, -2, 2))])
+        s = b.apply("sum", [p], {"axis": None, "keepdims": False}) if p is not None else None
+        if s is None:
+            return None
+        parts.append(s)
+    L = parts[0]
+    for s in parts[1:]:
+        L = b.apply("add", [L, s])
+    b.backward(L)
+    if getattr(b, "identity_views", None):
+        return None
+    return b
+
+
 def gen_case(rng):
+    if rng.random() < 0.2:
+        return gen_two_epochs(rng)
     b = inplace.FBuilder(rng)
     base = b.leaf(rng.choice([(4,), (2, 3), (3, 2), (2, 2, 2), (2, 1, 3), (6,)]), const=False)
     if rng.random() < 0.35:
@@ -42,7 +89,21 @@ def gen_case(rng):
             if kind < 0.3 and len(t.shape) >= 2:
                 src = b.apply("transpose", [t], {"axes": None})      # contribution arrives transposed
             w = ("array", src.shape, b.rng_vals(src.shape, -2, 2))
-            p = b.apply("multiply", [src, w] if rng.random() < 0.5 else [w, src])
+            ck = rng.random()
+            p = None
+            # different operations hand the first contribution over in different forms (fresh array, view of a temporary,
+            # broadcast, transposed): the relation must hold whichever arrives first
+            if ck < 0.2 and len(src.shape) >= 1:
+                vec = ("array", (src.shape[-1],), b.rng_vals((src.shape[-1],), -2, 2))
+                p = b.apply("matmul", [src, vec], spell=rng.choice(["op", "mg"]))
+            elif ck < 0.35 and len(src.shape) >= 1:
+                p = b.apply("cumsum", [src], {"axis": rng.randrange(len(src.shape))})
+            elif ck < 0.5:
+                p = b.apply("roll", [src], {"shift": rng.randint(-2, 2), "axis": None if not src.shape or rng.random() < 0.4 else rng.randrange(len(src.shape))})
+            elif ck < 0.6 and len(src.shape) == 2:
+                p = b.apply("einsum", [src, ("array", (src.shape[1], 2), b.rng_vals((src.shape[1], 2), -2, 2))], {"spec": "ij,jk->ik"})
+            if p is None:
+                p = b.apply("multiply", [src, w] if rng.random() < 0.5 else [w, src])
             if p is None:
                 continue
             if rng.random() < 0.3:
